@@ -41,6 +41,7 @@ def plan(tier, seed):
     for s in range(0, 80, 5):
         specs.append({"family": "foreign", "dialects": names[s:s + 5], "seed": seed, "n": 5})
     specs.append({"family": "headers", "seed": seed, "n": 1})
+    specs += shards("header_spellings", 3000 if tier == "quick" else 100000, 500 if tier == "quick" else 5000, seed)
     specs.append({"family": "table", "seed": seed, "n": 1})
     return specs
 
@@ -268,6 +269,42 @@ def run_headers(M):
                         {"kind": "reuse"})
 
 
+WS = [" ", "\t", "\u00a0", "\u3000", "\u2003", "\x0b", "\x0c", "\x1c", "\u0085", "\u2028"]      # all matched by \\s
+
+
+def run_header_spellings(spec_, M):
+    """Random spellings generated from the documented header pattern are honoured; near misses are plain comments."""
+    m = dialects.master()
+    names = sorted(m)
+    for i in range(spec_["start"], spec_["start"] + spec_["n"]):
+        r = rng(spec_["seed"], ID, "hdr", i)
+        d = r.choice(names)
+        sp = m[d]
+        ws = lambda lo=0: "".join(r.choice(WS) for _ in range(r.randint(lo, 3)))
+        before = "".join(r.choice(["\n", "# c\n", "  \n", "#language\n", "# language : \n"]) for _ in range(r.randint(0, 3)))
+        good = ws() + "#" + ws() + "language" + ws() + ":" + ws() + d + ws()
+        body = sp["feature"][0] + ": f\n  " + sp["scenario"][0] + ": s\n    " + dialects.step_keywords(sp)[0][0] + "x\n"
+        M.count("header_cases")
+        M.case(h64(["spelling", good, d]))
+        text = before + good + "\n" + body
+        o = observe.parse_observed(text)
+        case = {"kind": "text", "text": text, "default": "en"}
+        if o.status != "ok" or o.ast["feature"].get("language") != d or o.ast["feature"]["keyword"] != sp["feature"][0]:
+            M.violation("C05.header", {"what": "a header spelling matched by the documented pattern was not honoured", "header": good, "dialect": d,
+                                       "status": o.status, "errors": o.err_messages()[:2]}, case)
+        # near misses: must stay comments, the document is then read in the default dialect (en)
+        miss = r.choice(["# language " + d, "#language: " + d + " x", "# Language: " + d, "#language:" + d + "!", "# lang: " + d,
+                         "#language:", "x #language: " + d, "#language: " + d + "\u200b", "#languagе: " + d])
+        text2 = miss + "\nFeature: f\n"
+        o2 = observe.parse_observed(text2)
+        M.count("header_cases")
+        M.case(h64(["miss", miss]))
+        ok = o2.status == "ok" and o2.ast["feature"]["language"] == "en" and [c["text"] for c in o2.ast["comments"]] == [miss] if not miss.startswith("x ") else o2.status != "ok"
+        if not ok:
+            M.violation("C05.header", {"what": "a line that does not match the header pattern was treated as a language header (or not kept as a comment)",
+                                       "line": miss, "status": o2.status, "errors": o2.err_messages()[:2]}, {"kind": "text", "text": text2, "default": "en"})
+
+
 def run_table(M):
     M.count("table_comparisons")
     M.case("table")
@@ -296,6 +333,8 @@ def run_shard(spec, M):
         run_foreign(spec, M)
     elif f == "headers":
         run_headers(M)
+    elif f == "header_spellings":
+        run_header_spellings(spec, M)
     else:
         run_table(M)
 
